@@ -605,9 +605,12 @@ Proof.
     assert (HJ1 : J (4 * i) s1 fs).
     { apply (J_core _ s); [symmetry; apply core_neutral, filter_replay_events | exact HJ]. }
     destruct (snd (replay_events s p)) as [[|e evs]|]; [apply Hnil; [exact HJ1 | lia] | | apply Hnil; [exact HJ1 | lia]].
-    apply Safe_filter. rewrite filter_child by apply filter_write_blob.
+    apply Safe_neutral_app; [apply filter_write_blob | apply (D_mono (4 * i)); [lia | exact (J_D _ _ _ HJ1)]|].
+    assert (HJ2 : J (4 * i) (run_instrs s1 (write_blob a)) fs).
+    { apply (J_core _ s1); [symmetry; apply core_neutral, filter_write_blob | exact HJ1]. }
+    apply Safe_filter. rewrite filter_child by reflexivity.
     apply (Safe_mono (4 * i + 2)); [lia|].
-    apply (Safe_child i s1 fs c len0 len1 (Some a) HJ1). exact (env_fresh s fs _ Ht He).
+    apply (Safe_child i _ fs c len0 len1 (Some a) HJ2). exact (env_fresh s fs _ Ht He).
   - (* cache loss + read *)
     apply Safe_filter. cbn [compile filter relevant]. rewrite filter_replay_events. apply Hnil; [exact HJ | lia].
 Qed.
